@@ -396,19 +396,24 @@ Proof.
   intros H. unfold proj_ok. unfold wstep in H.
   destruct (wpc_ s) as [|pc x r adv|adv|adv] eqn:EW.
   - (* WDrain *)
-    inversion H; subst s' es ms; clear H.
+    injection H as <- <- <-.
     rewrite (w_view k u s) by (fields; reflexivity). rewrite (view_unfold k u s tr), EW. fields.
     rewrite (cn_plus_nil _ _ (cnt_ex u tr)), mem_app.
     right. apply in_act_w. unfold act_w. lproj. cbn [vw f_ph f_watch f_inq f_adv]. lproj.
-    destruct (w_watch s ++ wq s) as [|y r'] eqn:ET.
-    + apply app_eq_nil in ET as [E1 E2]. rewrite E1, E2. cbn. right. left. reflexivity.
-    + assert (Hwa : mem u (w_watch s) || mem u (wq s) = (u =? y) || mem u r').
-      { rewrite <- mem_app, ET. reflexivity. }
-      rewrite Hwa. cbn [witer_next vw mem existsb].
-      destruct (y =? u) eqn:Ey.
-      * apply Z.eqb_eq in Ey. subst y. rewrite Z.eqb_refl. cbn [orb app].
-        destruct (mem u r'); [right; left | right; right; left]; reflexivity.
-      * rewrite (Z.eqb_sym u y), Ey. cbn [orb]. left. reflexivity.
+    assert (Hq : mem u (wq s) = mem u (firstn bulk (wq s)) || mem u (skipn bulk (wq s)))
+      by (rewrite <- mem_app, firstn_skipn; reflexivity).
+    apply in_flat_map. exists (mem u (firstn bulk (wq s)), mem u (skipn bulk (wq s))). split.
+    + rewrite Hq. destruct (mem u (firstn bulk (wq s))), (mem u (skipn bulk (wq s))); cbn; auto.
+    + destruct (w_watch s ++ firstn bulk (wq s)) as [|y r'] eqn:ET.
+      * apply app_eq_nil in ET as [E1 E2]. rewrite E1, E2. cbn [mem existsb orb witer_next vw app map fst cnt filter length sat].
+        right. left. reflexivity.
+      * assert (Hwa : mem u (w_watch s) || mem u (firstn bulk (wq s)) = (u =? y) || mem u r').
+        { rewrite <- mem_app, ET. reflexivity. }
+        rewrite Hwa. cbn [witer_next vw].
+        destruct (y =? u) eqn:Ey.
+        -- apply Z.eqb_eq in Ey. subst y. rewrite Z.eqb_refl. cbn [orb app].
+           destruct (mem u r'); [right; left | right; right; left]; reflexivity.
+        -- rewrite (Z.eqb_sym u y), Ey. cbn [orb]. left. reflexivity.
   - (* WTask *)
     destruct (Z.eq_dec x u) as [->|N].
     + (* the watcher looks at u *)
